@@ -367,7 +367,7 @@ theorem modifyStep_sound (q : T → Nat → T × Nat) (hq : QOK q) (v : T) (A : 
     have htc := release_tc A p v x hx inv.top inv.uniq
     obtain ⟨hf, hA1, hAA1, hub, hcnt, hfresh, hlog⟩ := upd_book p v _ _ _ v' A' f' log h hv2 hn2 hA2
     refine ⟨⟨upd_uniq p v _ _ _ v' A' f' log h hu1 hnA hv2 hn2 hA2,
-             upd_tc p v _ _ _ v' A' f' log h htc hnA hv2 hn2 hA2, hub, ?_⟩,
+             upd_tc p v _ _ _ v' A' f' log h htc hu1 hnA hv2 hn2 hA2, hub, ?_⟩,
             upd_cons p v _ _ _ v' A' f' log h hu1 hnA hv2 hn2 hA2,
             fun e he => hsub _ (hlog e he).1,
             x, rfl, upd_abs p v _ _ _ _ h⟩
@@ -379,33 +379,42 @@ theorem modifyStep_sound (q : T → Nat → T × Nat) (hq : QOK q) (v : T) (A : 
 
 /-! ### write confinement without any hypothesis on the labels (C05.1) -/
 
-/-- every cell written in place by `upd` is registered in the allocator, which only grows -/
+/-- every cell written in place by `upd` was registered in the allocator before the call or allocated
+    by the call, and so is every cell registered afterwards -/
 theorem upd_confined : ∀ (p : Path) (v n : T) (A : List Nat) (f : Nat) v' A' f' log,
     upd A f p v n = some (v', A', f', log) →
-    f ≤ f' ∧ (∀ a ∈ A, a ∈ A') ∧ (∀ a ∈ A', a ∈ A ∨ (f ≤ a ∧ a < f')) ∧ (∀ e ∈ log, e.1 ∈ A') := by
+    f ≤ f' ∧ (∀ a ∈ A', a ∈ A ∨ (f ≤ a ∧ a < f')) ∧ (∀ e ∈ log, e.1 ∈ A ∨ (f ≤ e.1 ∧ e.1 < f')) := by
   intro p
   induction p with
   | nil =>
     intro v n A f v' A' f' log h
     simp only [upd, Option.some.injEq, Prod.mk.injEq] at h
     obtain ⟨rfl, rfl, rfl, rfl⟩ := h
-    exact ⟨Nat.le_refl _, fun a h => h, fun a h => Or.inl h, by simp⟩
+    exact ⟨Nat.le_refl _, fun a h => Or.inl h, by simp⟩
   | cons e p ih =>
     intro v n A f v' A' f' log h
     obtain ⟨cell, o, fo, u, A1, f1, log1, he, hu, hcase⟩ := upd_step A f e p v n v' A' f' log h
-    obtain ⟨hf, h1, h2, h3⟩ := ih fo.child n A f u A1 f1 log1 hu
-    rcases hcase with ⟨id, c, rfl, hin, rfl, rfl, rfl, rfl⟩ | ⟨c', rfl, rfl, rfl, rfl⟩
-    · refine ⟨hf, h1, h2, ?_⟩
+    obtain ⟨hf, h2, h3⟩ := ih fo.child n A f u A1 f1 log1 hu
+    rcases hcase with ⟨id, c, rfl, hin, rfl, rfl, rfl, rfl⟩ | ⟨c', A2, rfl, rfl, rfl, rfl, hA2⟩
+    · refine ⟨hf, h2, ?_⟩
       intro e' he'
       simp only [List.mem_append, List.mem_singleton] at he'
       rcases he' with he' | rfl
       · exact h3 e' he'
-      · exact hin
-    · refine ⟨by omega, fun a ha => List.mem_cons_of_mem _ (h1 a ha), ?_, fun e' he' => List.mem_cons_of_mem _ (h3 e' he')⟩
-      intro a ha
-      rcases List.mem_cons.mp ha with rfl | ha
-      · exact Or.inr ⟨hf, by omega⟩
-      · rcases h2 a ha with h | h
+      · exact h2 _ hin
+    · have hA2sub : ∀ a ∈ A2, a ∈ A1 := by
+        rcases hA2 with ⟨hEq, _⟩ | ⟨id, c, _, _, hEq⟩
+        · rw [hEq]; exact fun a h => h
+        · rw [hEq]; exact fun a h => (List.mem_filter.mp h).1
+      refine ⟨by omega, ?_, ?_⟩
+      · intro a ha
+        rcases List.mem_cons.mp ha with rfl | ha
+        · exact Or.inr ⟨hf, by omega⟩
+        · rcases h2 a (hA2sub a ha) with h | h
+          · exact Or.inl h
+          · exact Or.inr ⟨h.1, by omega⟩
+      · intro e' he'
+        rcases h3 e' he' with h | h
         · exact Or.inl h
         · exact Or.inr ⟨h.1, by omega⟩
 
@@ -571,7 +580,7 @@ theorem modifyStep_range (q : T → Nat → T × Nat) (hq : QOK q) (v : T) (A : 
   | some x =>
     simp only [hx, Option.map_some] at h
     obtain ⟨hqf, _⟩ := hq x f
-    obtain ⟨hf, h1, h2, h3⟩ := upd_confined p v _ _ _ v' A' f' log h
+    obtain ⟨hf, h2, h3⟩ := upd_confined p v _ _ _ v' A' f' log h
     refine ⟨by omega, ?_⟩
     intro a ha
     rcases h2 a ha with h | h
@@ -650,5 +659,181 @@ theorem inv_empty (v : T) (f : Nat) (hv : ∀ j ∈ v.ids, j < f) : Inv [] f v w
   top := tc_of_disjoint _ _ (by intro a _ h; simp at h)
   hv := hv
   hA := by intro a ha; simp at ha
+
+
+/-! ### registered cells are live (the premise that makes fresh labels a faithful model of addresses) -/
+
+/-- after `upd` (with `a.free`, abb84a0), a registered label that does not occur in the result was
+    registered before the call and either was dead already or sat in the subtree that was replaced -/
+theorem upd_live : ∀ (p : Path) (v n : T) (A : List Nat) (f : Nat) v' A' f' log,
+    upd A f p v n = some (v', A', f', log) →
+    ∀ a ∈ A', a ∉ v'.ids → a ∈ A ∧ (a ∉ v.ids ∨ a ∈ (subE p v).ids) := by
+  intro p
+  induction p with
+  | nil =>
+    intro v n A f v' A' f' log h a ha _
+    simp only [upd, Option.some.injEq, Prod.mk.injEq] at h
+    obtain ⟨rfl, rfl, rfl, rfl⟩ := h
+    refine ⟨ha, ?_⟩
+    by_cases hm : a ∈ v.ids
+    · exact Or.inr (by simpa [subE] using hm)
+    · exact Or.inl hm
+  | cons e p ih =>
+    intro v n A f v' A' f' log h a ha hnot
+    obtain ⟨cell, o, fo, u, A1, f1, log1, he, hu, hcase⟩ := upd_step A f e p v n v' A' f' log h
+    have hids := enter_ids e v cell o fo he
+    have hsub : subE (e :: p) v = subE p fo.child := by simp only [subE, he]
+    rw [hsub]
+    rcases hcase with ⟨id, c, rfl, hin, rfl, rfl, rfl, rfl⟩ | ⟨c', A2, rfl, rfl, rfl, rfl, hA2⟩
+    · rw [ids_node_plug] at hnot
+      simp only [List.mem_cons, List.mem_append, not_or] at hnot
+      obtain ⟨h0, ⟨h1, h2⟩, h3⟩ := hnot
+      obtain ⟨g1, g2⟩ := ih fo.child n A f u _ f' log1 hu a ha h2
+      refine ⟨g1, ?_⟩
+      rcases g2 with g2 | g2
+      · left
+        rw [hids]
+        simp only [cellIds_some, List.mem_append, List.mem_singleton, not_or]
+        exact ⟨h0, ⟨h1, g2⟩, h3⟩
+      · exact Or.inr g2
+    · rw [ids_node_plug] at hnot
+      simp only [List.mem_cons, List.mem_append, not_or] at hnot
+      obtain ⟨h0, ⟨h1, h2⟩, h3⟩ := hnot
+      rcases List.mem_cons.mp ha with rfl | ha2
+      · exact absurd rfl h0
+      · have haA1 : a ∈ A1 := by
+          rcases hA2 with ⟨hEq, _⟩ | ⟨id, c, _, _, hEq⟩
+          · rw [hEq] at ha2; exact ha2
+          · rw [hEq] at ha2; exact (List.mem_filter.mp ha2).1
+        obtain ⟨g1, g2⟩ := ih fo.child n A f u A1 f1 log1 hu a haA1 h2
+        refine ⟨g1, ?_⟩
+        rcases g2 with g2 | g2
+        · left
+          rw [hids]
+          simp only [List.mem_append, not_or]
+          refine ⟨?_, ⟨h1, g2⟩, h3⟩
+          -- `a` is not the cell that was copied: that one is not registered any more
+          intro hc
+          cases hcell : cell with
+          | none => rw [hcell] at hc; simp at hc
+          | some ic =>
+            obtain ⟨id, c⟩ := ic
+            rw [hcell] at hc
+            simp only [cellIds_some, List.mem_singleton] at hc
+            subst hc
+            rcases hA2 with ⟨_, hnin⟩ | ⟨id', c'', hc', _, hEq⟩
+            · exact hnin a c hcell haA1
+            · rw [hcell] at hc'
+              simp only [Option.some.injEq, Prod.mk.injEq] at hc'
+              obtain ⟨rfl, rfl⟩ := hc'
+              rw [hEq] at ha2
+              have := (List.mem_filter.mp ha2).2
+              simp at this
+        · exact Or.inr g2
+
+/-- when `upd` and tree-level `getpath` both succeed on `p`, the replaced subtree is what `getpath` found -/
+theorem subE_eq_getp : ∀ (p : Path) (v x : T), getp p v = some x → (∀ n A f r, upd A f p v n = some r → True) →
+    ∀ n A f r, upd A f p v n = some r → subE p v = x := by
+  intro p
+  induction p with
+  | nil => intro v x h _ n A f r _; simp only [getp, Option.some.injEq] at h; simpa [subE] using h
+  | cons e p ih =>
+    intro v x h _ n A f r hu
+    obtain ⟨v', A', f', log⟩ := r
+    obtain ⟨cell, o, fo, u, A1, f1, log1, he, hu', _⟩ := upd_step A f e p v n v' A' f' log hu
+    simp only [subE, he]
+    refine ih fo.child x ?_ (fun _ _ _ _ _ => trivial) n A f _ hu'
+    -- `enter` and `getp` take the same child
+    cases e with
+    | key k =>
+      cases v with
+      | hole => simp [enter] at he
+      | leaf s =>
+        cases s <;> simp only [enter, Option.some.injEq, Prod.mk.injEq, reduceCtorEq] at he
+        obtain ⟨_, _, rfl⟩ := he
+        simpa [getp] using h
+      | node id ob c ks =>
+        cases ob with
+        | false => simp [enter] at he
+        | true =>
+          simp only [enter, Option.some.injEq, Prod.mk.injEq] at he
+          obtain ⟨_, _, rfl⟩ := he
+          simpa [getp] using h
+    | idx i =>
+      cases v with
+      | hole => simp [enter] at he
+      | leaf s =>
+        cases s <;> simp only [enter, reduceCtorEq] at he
+        split at he
+        · split at he
+          · cases he
+          · simp only [Option.some.injEq, Prod.mk.injEq] at he
+            obtain ⟨_, _, rfl⟩ := he
+            simpa [getp] using h
+        · cases he
+      | node id ob c ks =>
+        cases ob with
+        | true => simp [enter] at he
+        | false =>
+          simp only [enter] at he
+          simp only [getp] at h
+          split at he
+          · cases he
+          · rename_i j hr
+            simp only [Option.map_eq_some_iff] at he
+            obtain ⟨⟨pre, y, post⟩, hs, h2⟩ := he
+            simp only [Prod.mk.injEq] at h2
+            obtain ⟨_, _, rfl⟩ := h2
+            simpa [hr, hs] using h
+          · rename_i i' hr
+            split at he
+            · cases he
+            · simp only [Option.some.injEq, Prod.mk.injEq] at he
+              obtain ⟨_, _, rfl⟩ := he
+              simpa [hr] using h
+
+/-- **Registered cells are live**, for one iteration of `_modify`: if every registered label occurs in
+    the value before the iteration, every registered label occurs in the value after it. -/
+theorem modifyStep_live (q : T → Nat → T × Nat) (hq : QOK q) (v : T) (A : List Nat) (f : Nat) (p : Path)
+    (v' : T) (A' : List Nat) (f' : Nat) (log : Log)
+    (h : modifyStep q (v, A, f) p = some (v', A', f', log)) (inv : Inv A f v)
+    (hlive : ∀ a ∈ A, a ∈ v.ids) : ∀ a ∈ A', a ∈ v'.ids := by
+  simp only [modifyStep, getpRelease] at h
+  cases hx : getp p v with
+  | none => simp [hx] at h
+  | some x =>
+    simp only [hx, Option.map_some] at h
+    intro a ha
+    apply Classical.byContradiction
+    intro hnot
+    obtain ⟨g1, g2⟩ := upd_live p v _ _ _ v' A' f' log h a ha hnot
+    have hsubE := subE_eq_getp p v x hx (fun _ _ _ _ _ => trivial) _ _ _ _ h
+    have hxc := getp_count p v x hx
+    have hux : ∀ a ∈ A, x.ids.count a ≤ 1 := fun a ha => by have := inv.uniq a ha; have := hxc a; omega
+    rcases g2 with g2 | g2
+    · exact g2 (hlive a (release_sub x A a g1))
+    · rw [hsubE] at g2
+      exact release_est x A (getp_tc A p v x hx inv.top) hux a g2 g1
+
+/-- … and for the whole reduction started with an empty allocator -/
+theorem modifyAll_live (q : T → Nat → T × Nat) (hq : QOK q) :
+    ∀ (ps : List Path) (v : T) (A : List Nat) (f : Nat) (r : T × List Nat × Nat),
+      Inv A f v → (∀ a ∈ A, a ∈ v.ids) → modifyAll q ps (v, A, f) = some r → ∀ a ∈ r.2.1, a ∈ r.1.ids := by
+  intro ps
+  induction ps with
+  | nil =>
+    intro v A f r _ hl h
+    simp only [modifyAll, Option.some.injEq] at h
+    subst h
+    exact hl
+  | cons p ps ih =>
+    intro v A f r inv hl h
+    simp only [modifyAll] at h
+    split at h
+    · cases h
+    · rename_i v' A' f' log hs
+      obtain ⟨inv', hcons, _, _⟩ := modifyStep_sound q hq v A f p v' A' f' log hs inv
+      rw [applyLog_id log v' hcons] at h
+      exact ih v' A' f' r inv' (modifyStep_live q hq v A f p v' A' f' log hs inv hl) h
 
 end Gojq.Heap
